@@ -28,6 +28,8 @@ pub enum Src {
   Behavior(usize, V),
   Interval(u64),
   Timer(V, u64),
+  /// `from_future` over a poll-counting future that is ready at its first poll
+  FutureReady(V),
 }
 
 #[derive(Clone, Copy, Debug, PartialEq, Eq, Hash)]
